@@ -1,12 +1,14 @@
 (** C17 — the ELBO objective and the VI loop.
     Mechanised: the value of the objective for every draw, tightness at the exact
     posterior, merge precedence, the update rule and the completeness of the
-    history.  NOT mechanised (partial): unbiasedness of the ELBO and of its
-    gradient (they are C11's statement applied to this objective, proved there
-    for finite flip programs), and the Jensen bound E_q[elbo] <= log p(x). *)
-From Coq Require Import QArith List Lia.
+    history; the bound E_q[elbo] <= log p(x) with equality at the exact posterior for
+    latents of finite support (over the reals, at the end of this file).  NOT mechanised
+    (partial): unbiasedness of the ELBO and of its gradient (they are C11's statement
+    applied to this objective, proved there for finite flip programs), and the bound
+    for continuous latents. *)
+From Coq Require Import QArith List Lia Reals Lra.
 Import ListNotations.
-From GV Require Import Model.Gfi Model.Spec Model.Vi Lemmas.CmLemmas Lemmas.GfiCoh Properties.C01.
+From GV Require Import Model.Gfi Model.Spec Model.Vi Lemmas.CmLemmas Lemmas.GfiCoh Lemmas.Jensen Properties.C01.
 
 (** For every target, family, constraint, arguments and every draw z of the
     family: objective = log p(merged choices) + (-log q(z)) = log p(x, z) - log q(z). *)
@@ -74,3 +76,32 @@ Example C17_nonvacuous :
   let r := ascent (fun _ p => (- (2 # 1) * (p - (3 # 1)))%Q) (1 # 4)%Q 3 0 (1 # 1)%Q in
   (fst r == 11 # 4)%Q /\ length (snd r) = 3%nat /\ (nth 0 (snd r) 0 == 2 # 1)%Q.
 Proof. vm_compute. repeat split; reflexivity. Qed.
+
+(** The objective lies below the log evidence in expectation, with equality at the exact posterior:
+    for a latent with finitely many values, family masses q_i > 0 summing to 1 and joint masses
+    p_i = p(x, z_i) > 0 (the list holds the pairs (q_i, p_i)),
+       E_q[log p(x,z) - log q(z)] = sum_i q_i ln (p_i / q_i) <= ln (sum_i p_i) = ln p(x). *)
+Theorem C17_elbo_below_log_evidence :
+  forall l : list (R * R),
+    l <> [] -> Forall (fun qp => (0 < fst qp /\ 0 < snd qp)%R) l -> rsum fst l = 1%R ->
+    (rsum (fun qp => fst qp * ln (snd qp / fst qp)) l <= ln (rsum snd l))%R.
+Proof. exact elbo_le_log_evidence. Qed.
+Print Assumptions C17_elbo_below_log_evidence.
+
+Theorem C17_elbo_tight_at_posterior_real :
+  forall ps : list R,
+    ps <> [] -> Forall (fun p => (0 < p)%R) ps ->
+    let P := rsum (fun p => p) ps in
+    rsum (fun p => (p / P) * ln (p / (p / P)))%R ps = ln P.
+Proof. exact elbo_tight_at_posterior. Qed.
+Print Assumptions C17_elbo_tight_at_posterior_real.
+
+Example C17_bound_nonvacuous :
+  [(1/2, 1/4); (1/2, 1/8)]%R <> [] /\
+  Forall (fun qp : R * R => (0 < fst qp /\ 0 < snd qp)%R) [(1/2, 1/4); (1/2, 1/8)]%R /\
+  rsum fst [(1/2, 1/4); (1/2, 1/8)]%R = 1%R.
+Proof.
+  split; [discriminate|]. split.
+  - repeat constructor; cbn; lra.
+  - cbn. lra.
+Qed.
